@@ -178,6 +178,48 @@ def wf_quoting(k, q):
 def known_quoted(c, r):
     return None if wf_quoting(c["k"], c["q"]) else "D23-escaping-configuration-not-self-escaping"
 
+# ---- field names ----
+FCONFIGS = [
+    {"quote": "'", "escape": "\\", "escape_quote": True, "escape_pattern": r"[\\\s]", "quote_pattern": r"^\w+$"},
+    {"quote": '"', "escape": "\\", "escape_quote": True, "escape_pattern": r"\\", "quote_pattern": None},
+    {"quote": "'", "escape": None, "escape_quote": True, "escape_pattern": None, "quote_pattern": r"^\w+$"},   # shipped test backend
+    {"quote": None, "escape": "\\", "escape_quote": True, "escape_pattern": r"[\s\\]", "quote_pattern": None},
+    {"quote": "`", "escape": "\\", "escape_quote": False, "escape_pattern": r"[\\`]", "quote_pattern": None},
+    {"quote": "'", "escape": "\\", "escape_quote": True, "escape_pattern": None, "quote_pattern": None},
+    {"quote": "'", "escape": "\\", "escape_quote": False, "escape_pattern": r"\\", "quote_pattern": None},
+]
+FALPHA = ["a", "B", "'", '"', "\\", " ", "`", ".", "_", "é"]
+def gen_field(tier, rng):
+    fs = ["".join(t) for k in range(0, 4 if tier == "quick" else 5) for t in itertools.product(FALPHA, repeat=k)]
+    if tier == "quick":
+        fs = [f for f in fs if len(f) <= 2] + rng.sample([f for f in fs if len(f) > 2], 400)
+    fs += ["".join(rng.choice(FALPHA) for _ in range(rng.randint(4, 9))) for _ in range(200 if tier == "quick" else 3000)]
+    return [{"k": k, "f": f} for f in fs for k in (rng.sample(FCONFIGS, 3) if tier == "quick" else FCONFIGS)]
+
+def quote_decision(k, f):
+    import re
+    if k["quote"] is None: return False
+    if k["quote_pattern"] is None: return True
+    # all configurations with a quote pattern escape only non-word characters, so the decision on the
+    # escaped name equals the decision on the original name
+    return not bool(re.match(k["quote_pattern"], f))
+
+def field_to_coq(c, r):
+    if "exc" in r: return None
+    k = c["k"]
+    K = "{| f_quote := %s; f_escape := %s; f_escape_quote := %s |}" % (
+        copt(str(ord(k["quote"])) if k["quote"] else None), copt(cstr(k["escape"]) if k["escape"] else None), cbool(k["escape_quote"]))
+    P = clist(f"{i}%nat" for i in r["pos"])
+    return f"({K}, {P}, {cbool(quote_decision(k, c['f']))}, {cstr(c['f'])}, {cstr(r['text'])})"
+
+def known_field(c, r):
+    k, f = c["k"], c["f"]
+    if "exc" in r: return None
+    ok = k["escape"] is not None and all((ch != k["escape"]) or (i in r["pos"]) for i, ch in enumerate(f))
+    if ok and k["quote"] and quote_decision(k, f):
+        ok = k["quote"] != k["escape"] and (k["escape_quote"] or k["quote"] not in f)
+    return None if ok else "D32-field-escaping-configuration-incomplete"
+
 # ---- slices ----
 def gen_slice(tier, rng):
     out = []
@@ -216,6 +258,7 @@ PROPERTY = Property(
         Suite("convert", gen_convert, "run_convert", REQ, "judge_convert", convert_to_coq, known=known_convert, mutate=mutate_str),
         Suite("regex", gen_regex, "run_regex", REQ, "judge_regex", regex_to_coq, mutate=mutate_str),
         Suite("quoted", gen_quoted, "run_quoted", REQ, "judge_quoted", quoted_to_coq, known=known_quoted, mutate=mutate_str),
+        Suite("field", gen_field, "run_field", REQ + ["Model.FieldName"], "judge_field", field_to_coq, known=known_field),
         Suite("slice", gen_slice, "run_slice", REQ + ["Model.Slice"], "judge_slice", slice_to_coq, known=known_slice, mutate=mutate_str),
     ],
     rule="strings over {\\ * ? \" ' : & % . ( [ a B space}: exhaustive up to length 3 (quick) / 4 (thorough), longer over a reduced alphabet, "
